@@ -87,7 +87,7 @@ func (e *SExpr) String() string {
 		}
 		return e.Name + "(" + strings.Join(e.Vars, " ") + ", " + strings.Join(as, ", ") + ")"
 	case SOld:
-		return "old(" + e.X.String() + ")"
+		return e.Name + "(" + e.X.String() + ")"
 	}
 	return "?"
 }
@@ -256,11 +256,11 @@ func (ps *specParser) primary() *SExpr {
 			return &SExpr{Kind: SBool, Name: t.text, Pos: t.pos}
 		case "nil":
 			return &SExpr{Kind: SNil, Pos: t.pos}
-		case "old":
+		case "old", "prev":
 			ps.expect("(")
 			x := ps.expr(0)
 			ps.expect(")")
-			return &SExpr{Kind: SOld, X: x, Pos: t.pos}
+			return &SExpr{Kind: SOld, Name: t.text, X: x, Pos: t.pos}
 		case "forall", "exists":
 			ps.expect("(")
 			var vars []string
